@@ -12,6 +12,7 @@
 #include <fcppt/impl/codecvt_type.hpp>
 #include <fcppt/optional/object_impl.hpp>
 #include <fcppt/config/external_begin.hpp>
+#include <algorithm>
 #include <iterator>
 #include <locale>
 #include <string>
@@ -76,13 +77,21 @@ fcppt::optional::object<std::basic_string<Out>> codecvt(
     case std::codecvt_base::error:
       return optional_return_type{};
     case std::codecvt_base::partial:
-      if (written == 0U)
+    {
+      // partial either means that the output does not fit or that the input
+      // ends in the middle of a character. Only the latter can be the case if
+      // nothing was written although a whole character would have fit.
+      typename buffer_type::size_type const max_length{
+          fcppt::cast::to_unsigned(std::max(conv.max_length(), 1))};
+
+      if (written == 0U && buf.write_size() >= max_length)
       {
-        return optional_return_type{return_type(buf.begin(), buf.end())};
+        return optional_return_type{};
       }
 
-      buf.resize_write_area(buf.read_size() * 2U);
+      buf.resize_write_area(std::max(buf.read_size() * 2U, max_length));
       continue;
+    }
     case std::codecvt_base::ok:
       return optional_return_type{return_type(buf.begin(), buf.end())};
     }
